@@ -46,7 +46,9 @@ func (dc *DublinCore) parse(p property) (err error) {
 			dc.TitleLang = append(dc.TitleLang, parseString(p.Value()))
 		}
 	case xmpns.Description:
-		dc.Description = append(dc.Description, parseString(p.Value()))
+		if p.pt == tagPType {
+			dc.Description = append(dc.Description, parseString(p.Value()))
+		}
 		// Subject
 		// Contributor
 		// Description
